@@ -1240,6 +1240,8 @@ def run(chk, cases=None):
         chk.report(rec, no_failing_input=True)
     from props.c02_tie import source_tie  # source tie: the translated _string_matching(return_mistakes=True) / error_rate
     source_tie(chk, cases, outs)
+    from props.c02_tie import source_tieB  # second tie: the translated minimum_error_rate_loss (unit C02BSrc)
+    source_tieB(chk, cases, outs)
 
 
 def replay(chk, path):
